@@ -109,6 +109,13 @@ func TestC05Election(t *testing.T) {
 	pbt.Check(t, "C05", func(c *pbt.C) {
 		h := sim.NewHist(c, electionSpec(c), genWorldOpts(c))
 		h.Intents = sim.DefaultIntents()
+		if c.Weighted("el.ecoWorld", 2, 1) == 1 {
+			// a pillar registered during the history (its own producing address), delegations to come
+			c.Class("ecosystem-world")
+			if _, err := sim.EcosystemScript(h); err != nil {
+				c.Note("ecosystem script stopped: %v", err)
+			}
+		}
 		// history with balance moves, delegations, registrations and large slot skips
 		rounds := c.Int("rounds", 2, pbt.Scale(6, 14))
 		for r := 0; r < rounds && !h.Dead; r++ {
